@@ -338,6 +338,18 @@ func (w *World) ScheduleFaults(plan FaultPlan, horizon time.Duration) {
 			})
 		}
 	}
+	if plan.Partitions && simkit.Chance(t, "usemute", 1, 3) {
+		// one-way trouble: for a while nothing a node publishes gets out, while it keeps hearing the others
+		n := s.Nodes[simkit.Int(t, "mutenode", 0, len(s.Nodes)-1)]
+		at := time.Duration(simkit.Int(t, "muteat", 0, hz)) * time.Millisecond
+		dur := time.Duration(simkit.Int(t, "mutedur", 1, 12)) * w.BlockTime
+		if !n.IsAdversary {
+			s.At(at, "mute "+n.Name, func() {
+				n.MutedUntil = s.Now() + dur
+				s.Stats["node_muted"]++
+			})
+		}
+	}
 	if plan.Partitions {
 		np := simkit.Int(t, "npartitions", 0, 3)
 		for i := 0; i < np; i++ {
